@@ -2,6 +2,7 @@ package updog
 
 import (
 	"encoding/binary"
+	"errors"
 	"fmt"
 	"sort"
 	"strings"
@@ -34,6 +35,14 @@ func (idx *Index) Execute(q *Query) (*Result, error) {
 		}(time.Now())
 	}
 
+	if q == nil {
+		return nil, errors.New("no query")
+	}
+
+	if err := validateExpr(q.Expr); err != nil {
+		return nil, err
+	}
+
 	idx.mtx.RLock()
 	defer idx.mtx.RUnlock()
 
@@ -50,6 +59,47 @@ func (idx *Index) Execute(q *Query) (*Result, error) {
 		Count:  result.GetCardinality(),
 		Groups: q.groupBy(result, idx),
 	}, nil
+}
+
+// validateExpr rejects incomplete expression trees (a missing expression or operand, as a
+// decoded request may contain) before anything is evaluated.
+func validateExpr(e Expression) error {
+	switch v := e.(type) {
+	case nil:
+		return errors.New("incomplete query: missing expression")
+	case *ExprEqual:
+		if v == nil {
+			return errors.New("incomplete query: missing expression")
+		}
+	case *ExprNot:
+		if v == nil {
+			return errors.New("incomplete query: missing expression")
+		}
+
+		return validateExpr(v.Expr)
+	case *ExprAnd:
+		if v == nil {
+			return errors.New("incomplete query: missing expression")
+		}
+
+		for _, ee := range v.Exprs {
+			if err := validateExpr(ee); err != nil {
+				return err
+			}
+		}
+	case *ExprOr:
+		if v == nil {
+			return errors.New("incomplete query: missing expression")
+		}
+
+		for _, ee := range v.Exprs {
+			if err := validateExpr(ee); err != nil {
+				return err
+			}
+		}
+	}
+
+	return nil
 }
 
 // Result contains the query result.
